@@ -47,7 +47,7 @@ ASSUMPTIONS = [
     'excluded: delete_layer that would leave a column with no layer below its surface (a column without blocks)',
     'excluded: reduce() to a set of columns that is not edge-connected (quantifier: connected geometries)',
     'a finding that concerns only derived structures (node.column, col.connection, col.neighbour, connection dict '
-    'keys, col.area, num_layers, the two name lists) is reported and the search continues from the state with all '
+    'keys, col.area, num_layers, the two name lists; also orphan nodes left by an operation, which are dropped) is reported and the search continues from the state with all '
     'derived structures rebuilt from the primary ones - for the primitives this is the documented remedy '
     '(setup_block_name_index, setup_block_connection_name_index, set_column_num_layers, identify_neighbours), '
     'DESIGN 3.2; stale name lists after a primitive have one signature per primitive (F15); every other finding '
@@ -764,8 +764,8 @@ def apply_op(st, op):
         return False, 'primitive'
     if kind == 'add_well':
         nm = fresh_name(geo.well.keys(), 5, 'w')
-        c = cols[0].centre
-        geo.add_well(mulgrids.well(nm, [np.array([c[0], c[1], 0.]), np.array([c[0], c[1], -12.])]))
+        top = geo.layerlist[0].bottom if geo.layerlist else 0.
+        geo.add_well(mulgrids.well(nm, [np.array([5., 5., top]), np.array([6., 5., top - 12.])]))
         return False, 'primitive'
     if kind == 'delete_well':
         geo.delete_well(geo.welllist[op[1]].name)
@@ -798,15 +798,20 @@ def apply_op(st, op):
 
 
 REPAIRABLE = ('node.column', 'col.connection', 'col.neighbour', 'connection-dict-keys', 'col.area', 'num_layers',
-              'block_name_list', 'block_connection_name_list')
+              'block_name_list', 'block_connection_name_list', 'orphan-node')
 
 
-def repair(geo):
+def repair(geo, clauses=()):
     """Rebuilds every derived structure from the primary ones (node list, column node lists, connection
     list, layers, surfaces) so that the search can go on behind a finding.  For the primitives this is the
     documented remedy (setup_block_name_index, setup_block_connection_name_index, set_column_num_layers,
     identify_neighbours); for the other methods it is what a repaired method would have left."""
     m = mesh_of(geo)
+    if 'orphan-node' in clauses:
+        # what delete_orphans() / check(fix=True) would do, decided by the reference
+        used = set(id(n) for c in geo.columnlist for n in c.node)
+        geo.nodelist = [n for n in geo.nodelist if id(n) in used]
+        geo.node = dict((n.name, n) for n in geo.nodelist)
     for n in geo.nodelist:
         n.column = set()
     for c in geo.columnlist:
@@ -864,7 +869,7 @@ def step_impl(st, op, sink):
             sink(sig, what)
         out = []
         with quiet():
-            repair(geo)
+            repair(geo, [clause for clause, text in found])
             again = invariant(geo, promise_mesh=promise, coords_too=promise and was_valid)
         for clause, text in again:
             out.append(('%s|%s|%s-after-repair|%s' % (ID, kind, clause, klass),
@@ -961,7 +966,19 @@ def run_unit(unit, tier, rec):
         rec.count('units', 1)
         return
     depth = BOUNDS[tier]['depth'][seed]
-    st0 = make_seed(seed)
+    try:
+        with core.timelimit(TIME_OP):
+            st0 = make_seed(seed)
+    except (core.HarnessError, core.CaseTimeout):
+        raise
+    except Exception as e:
+        # the seeds are made with the library's own builders and primitives
+        if k == 0:
+            rec.transition(validated=True)
+            rec.violation('%s|seed:%s|raises-%s|' % (ID, seed, type(e).__name__),
+                          'building the seed geometry %s raised %s: %s' % (seed, type(e).__name__, str(e)[:200]),
+                          {'seed': seed, 'ops': []})
+        return
     ops_of = ops_of_factory(tier)
     first = list(ops_of(st0, 0))
     chosen = set(i for i in range(len(first)) if i % n == k)
@@ -1002,9 +1019,18 @@ def run_unit(unit, tier, rec):
 def replay(case):
     if case.get('build'):
         return check_builder(case['build'])[1]
-    st = make_seed(case['seed'])
+    try:
+        st = make_seed(case['seed'])
+    except core.HarnessError:
+        raise
+    except Exception as e:
+        return [('%s|seed:%s|raises-%s|' % (ID, case['seed'], type(e).__name__), 'building the seed raised %s' % e)]
     out = []
     ops = case['ops']
+    if not ops:
+        with quiet():
+            found = invariant(st['geo'], promise_mesh=True, coords_too=True)
+        return [('%s|seed:%s|%s|' % (ID, st['seed'], clause), 'seed state: ' + text) for clause, text in found]
     for i, op in enumerate(ops):
         got = []
         fatal = step_impl(st, op, lambda sig, what: got.append((sig, what)))
